@@ -73,7 +73,11 @@ def shard_fn(shard, nshards, seed, tier, exe, ntexts, ntrees):
                 # the same text fed incrementally: numbers straddle calls, every call is monitored
                 cmds.append("LPC %d %d %d x%s" % (flags, depth, (1 + (len(cmds) // 3) % 7) * (-1 if (len(cmds) // 3) % 2 and b"\0" not in t else 1), t.hex()))
         for ti, (toks, flags, rfmt) in enumerate(trees):
-            cmds += ["B 0 " + " ".join(toks), "LS 0 %d" % flags]
+            if ti % 4 == 3:
+                # the tree is OLDER than the locale: built and serialized once while "C" is in effect everywhere, then the configuration is installed, then it is serialized
+                cmds += ["LOC 0", "B 0 " + " ".join(toks), "S 0 %d" % flags, "LOC %d" % cfg, "LS 0 %d" % flags]
+            else:
+                cmds += ["B 0 " + " ".join(toks), "LS 0 %d" % flags]
             k = ti % 6
             fmt = [b"%.3f", b"%.1f", b"%e", b"%.10g", b"%f", b"%.0f"][(ti // 6) % 6] if rfmt is None else rfmt
             if k == 1:      # global custom double format
